@@ -90,9 +90,14 @@ def audit_both_backends(prefix, tier="quick"):
             pass
     n = sum(int(x.get("cases", 0) or 0) for x in results.values())
     name = f"bounded native search {prefix.rstrip('.')} under both backends"
+    classified = []
+    for backend, x in results.items():
+        for cf in x.get("classified", []) or []:
+            classified.append(dict(cf, input=dict(backend=backend, input=cf.get("input"))))
     for backend, x in results.items():
         if x.get("reproduced"):
             return AuditResult(name, False, n, f"[{backend}] {str(x.get('observed'))[:300]}",
                                violation=dict(input=dict(backend=backend, input=x.get("input")), observed=x.get("observed"),
-                                              required=x.get("required")))
-    return AuditResult(name, True, n, bound="; ".join(f"{b}: {x.get('bound', x.get('error', 'not run'))}" for b, x in results.items()))
+                                              required=x.get("required")), classified=classified)
+    return AuditResult(name, True, n, bound="; ".join(f"{b}: {x.get('bound', x.get('error', 'not run'))}" for b, x in results.items()),
+                       classified=classified)
